@@ -1446,6 +1446,44 @@ fn case_strategy() -> impl Strategy<Value = Case> {
         .prop_map(|(names, buf_size, limit, ops)| Case { names, buf_size, limit, ops })
 }
 
+/// One RRset of 58-69 TXT records of 256 octets each: pushes the write position to
+/// just below or beyond offset 16383, the largest offset a compression pointer can name.
+fn filler_op() -> impl Strategy<Value = WOp> {
+    (any::<u16>(), 58usize..70, any::<u8>()).prop_map(|(owner, n, fill)| WOp::AddRr {
+        section: 0,
+        owner: OwnerSel::Name(owner),
+        mask: 0,
+        hint: HintSel::None,
+        rtype: mr::T_TXT,
+        class: mr::C_IN,
+        ttl: 300,
+        rdatas: (0..n)
+            .map(|i| {
+                let mut v = vec![255u8];
+                v.extend(std::iter::repeat(fill.wrapping_add(i as u8)).take(255));
+                WRdata { fields: vec![WField::Bytes(v)] }
+            })
+            .collect(),
+        as_set: true,
+        want_hints: false,
+    })
+}
+
+/// Messages larger than 16 KiB: names written beyond the reach of compression pointers.
+fn big_case_strategy() -> impl Strategy<Value = Case> {
+    (
+        names_strategy(),
+        prop::collection::vec(op_strategy(), 0..3),
+        prop::collection::vec(filler_op(), 1..3),
+        prop::collection::vec(prop_oneof![3 => add_rr_op(), 3 => add_rrset_op(), 1 => op_strategy()], 1..12),
+    )
+        .prop_map(|(names, mut ops, filler, rest)| {
+            ops.extend(filler);
+            ops.extend(rest);
+            Case { names, buf_size: 65535, limit: 65535, ops }
+        })
+}
+
 pub fn run(ctx: &Ctx, report: &mut Report) {
     let pointers = ctx.id == "C13";
     report.rule = if pointers {
@@ -1468,16 +1506,19 @@ pub fn run(ctx: &Ctx, report: &mut Report) {
     report.assumptions.push("hints are only used as the API contract allows (same name, pointer from a successful not-since-cleared operation)".into());
     report.assumptions.push("vmodel::wire lenient RDATA decode for records whose RDATA the writer passes through unvalidated".into());
     let cases = ctx.tier.pick(120_000, 2_500_000);
+    let big = ctx.tier.pick(2_500, 60_000);
     if pointers {
         run_prop(ctx, report, PropSpec { name: "writer-pointers", cases, max_shrink_iters: 6000 }, case_strategy, oracle_c13);
+        run_prop(ctx, report, PropSpec { name: "writer-pointers-big", cases: big, max_shrink_iters: 1500 }, big_case_strategy, oracle_c13);
     } else {
         run_prop(ctx, report, PropSpec { name: "writer-ops", cases, max_shrink_iters: 6000 }, case_strategy, oracle_c12);
+        run_prop(ctx, report, PropSpec { name: "writer-ops-big", cases: big, max_shrink_iters: 1500 }, big_case_strategy, oracle_c12);
     }
 }
 
 pub fn replay(check: &str, case: &serde_json::Value) -> Verdict {
     use crate::fw::replay_case;
-    if check == "writer-pointers" {
+    if check.starts_with("writer-pointers") {
         replay_case::<Case, _>(case, oracle_c13)
     } else {
         replay_case::<Case, _>(case, oracle_c12)
